@@ -352,6 +352,13 @@ for _pl, _f, _sig in (("aitstar", "src/ompl/geometric/planners/informedtrees/src
                       functions=["ompl::geometric::" + _sig.split("\\(")[0]], sources=[dict(name="path_to", file=_f, sig=_sig, rules=PT_RULES, loops={"allow_uncontracted": True})],
                       canaries=[dict(name="start_vertex_left_out", where="body:path_to", rx=r"\}\s*REV_PUSH\(current\);", repl="}")]))
 
+FT_RULES = [(r"std::vector<Motion \*> mpath;", "mpath_n = 0;", 0), (r"Motion \*solution = goalMotion;", "MotionRef solution = goalMotion;", 0), (r"mpath\.push_back\(solution\);", "MPATH_PUSH(solution);", 0),
+            (r"solution = solution->getParent\(\);", "solution = M_parent[solution];", 0), (r"auto path\(std::make_shared<PathGeometric>\(si_\)\);", "path_n = 0;", 0), (r"mpath\.size\(\)", "(int)mpath_n", 0),
+            (r"path->append\(mpath\[i\]->getState\(\)\);", "PATH_APPEND(mpath[i]);", 0), (r"pdef_->addSolutionPath\(path, (\w+), ([-\w.]+), getName\(\)\);", r"ADD_SOLUTION(\1, \2);", 0), (r"\bnullptr\b", "NIL", 0)]
+UNITS.append(dict(name="c01_fmt_traceSolutionPath", template="C01/fmt_trace.c", mode="plain", entry="h_fmt_trace", flags=["--bounds-check", "--pointer-check", "--signed-overflow-check"], unwind=8, level="bounded", bound="chains of <= 4 motions", backend="minisat", timeout=300,
+                  functions=["ompl::geometric::FMT::traceSolutionPathThroughTree"], sources=[dict(name="fmt_trace", file="src/ompl/geometric/planners/fmt/src/FMT.cpp", sig=r"void ompl::geometric::FMT::traceSolutionPathThroughTree\(Motion \*goalMotion\)", rules=FT_RULES, loops={"allow_uncontracted": True})],
+                  canaries=[dict(name="goal_motion_left_out", where="body:fmt_trace", rx=r"for \(int i = mPathSize - 1; i >= 0; --i\)", repl="for (int i = mPathSize - 1; i > 0; --i)")]))
+
 # roadmap planners: a new problem definition forgets the old query's start/goal milestones (otherwise the old query's path is reported for the new one) -- units of C03
 def _c03_query_units():
     sp = importlib.util.spec_from_file_location("c03q", os.path.join(os.path.dirname(__file__), "C03.py")); m = importlib.util.module_from_spec(sp)
